@@ -8,6 +8,7 @@ import (
 	"math/rand"
 	"net/http"
 	"net/url"
+	"strings"
 	"time"
 
 	"github.com/WICG/webpackage/go/bundle"
@@ -47,6 +48,23 @@ func (w *faultyWriter) err() error {
 }
 
 func (w *faultyWriter) Write(p []byte) (int, error) {
+	if w.mode == "budget" {
+		// never latches: a call fails exactly when it does not fit
+		if w.acc.Len()+len(p) <= w.k {
+			w.acc.Write(p)
+			w.log = append(w.log, wlog{len(p), len(p), false})
+			return len(p), nil
+		}
+		w.failed = true
+		w.log = append(w.log, wlog{len(p), 0, true})
+		return 0, w.err()
+	}
+	if w.failed && (w.mode == "transientErr" || w.mode == "transientShort") {
+		// the destination has recovered: one call failed, everything afterwards is taken
+		w.acc.Write(p)
+		w.log = append(w.log, wlog{len(p), len(p), false})
+		return len(p), nil
+	}
 	if w.failed {
 		w.log = append(w.log, wlog{len(p), 0, true})
 		return 0, w.err()
@@ -58,7 +76,7 @@ func (w *faultyWriter) Write(p []byte) (int, error) {
 	}
 	w.failed = true
 	n := 0
-	if w.mode == "shortWrite" {
+	if w.mode == "shortWrite" || w.mode == "transientShort" {
 		n = w.k - w.acc.Len()
 		w.acc.Write(p[:n])
 	}
@@ -211,7 +229,14 @@ func wfRun(args []string) error {
 	thorough := len(args) > 0 && args[0] == "thorough"
 	r := rand.New(rand.NewSource(seed()))
 	id := 0
+	only := ""
+	if len(args) > 1 {
+		only = args[1]
+	}
 	for _, s := range wfSerializers(r) {
+		if only != "" && !strings.Contains(s.name, only) {
+			continue
+		}
 		var ctl bytes.Buffer
 		if _, _, err := s.run(&ctl); err != nil {
 			return fmt.Errorf("control run of %s failed: %v", s.name, err)
@@ -229,10 +254,13 @@ func wfRun(args []string) error {
 			if k <= 12 || k >= len(O)-12 {
 				errIdx = []int{0, 1, 2, 3, 4}
 			}
-			for _, mode := range []string{"errAtCall", "shortWrite"} {
+			for _, mode := range []string{"errAtCall", "shortWrite", "transientErr", "transientShort", "budget"} {
 				for _, destE := range []string{"norf", "rf"} {
 					for _, ei := range errIdx {
 						dest := destE
+						if mode != "errAtCall" && mode != "shortWrite" && ei != errIdx[0] {
+							continue
+						}
 						if dest == "rf" && !(len(s.name) > 6 && s.name[:6] == "bundle") && k%4 != 0 {
 							continue // io.ReaderFrom only matters where CountingWriter may take that path
 						}
@@ -271,6 +299,9 @@ func wfRun(args []string) error {
 				}
 			}
 		}
+	}
+	if only != "" {
+		return nil
 	}
 	// CountingWriter as a component
 	type src struct {
